@@ -421,6 +421,7 @@ def compare_component(lab, im, mo):
 # ------------------------------------------------------------------------------------------------------------------
 # the real CLI
 # ------------------------------------------------------------------------------------------------------------------
+ASCII_ID = re.compile(r"^[A-Za-z_][A-Za-z0-9_]*$")
 SENTINEL = "# SENTINEL: this file existed before gen ran\nKEEP = 'untouched'\n"
 JSON_NAMES = ["alpha", "my_schema", "Foo", "x.y"]
 
@@ -437,11 +438,11 @@ def _gen_typ(r, kinds):
     return irgen.gen_typ(r, kinds=(k,))
 
 
-def make_ir(r, name):
+def make_ir(r, name, kinds=("scalar", "scalar", "optional", "literal", "list", "union", "nested")):
     n = r.randint(1, 4)
     params = {}
     for nm in r.sample(irgen.NAMES, n):
-        typ = _gen_typ(r, ("scalar", "scalar", "optional", "literal", "list", "union", "nested"))
+        typ = _gen_typ(r, kinds)
         p = {"typ": typ, "doc": r.choice(irgen.DOCS)}
         if r.random() < 0.5:
             d = irgen.gen_default(r, typ)
@@ -487,7 +488,8 @@ def gen_cli_case(r, k):
         from collections import OrderedDict
 
         nm = r.choice(JSON_NAMES)
-        ir = make_ir(r, nm)
+        # a JSON-schema *file*: only interfaces whose types JSON schema can express (scalars, enumerations)
+        ir = make_ir(r, nm, kinds=("scalar", "scalar", "literal", "optional"))
         ir["params"] = OrderedDict(ir["params"])
         ir["returns"] = None
         case["json_basename"] = nm + ".json"
@@ -509,6 +511,8 @@ def gen_cli_case(r, k):
     head = r.choice(["", "from typing import Dict, List, Literal, Optional, Union\n\n\n", '"""Input module"""\n\nimport os\n\n\n'])
     case["input_text"] = head + "\n\n\n".join(srcs) + "\n"
     case["parse"] = (r.choice(["infer", "class", "function"]) if kind == "mixed" else r.choice([kind, kind, "infer"]))
+    if not oracle_entries(case):
+        case["parse"] = "infer"  # the quantifier starts at one entry
     return case
 
 
@@ -568,6 +572,12 @@ def compute_world(case, inp_path):
         if isinstance(out, ast.AST):
             w["stmt"] = pyast.stmt_to_json(out)
             w["stmt_src"] = ast.unparse(ast.fix_missing_locations(out))
+            # an emitter may put a whole expression into one `Name.id`; the unparsed text then has other Name nodes than the tree
+            try:
+                ids = lambda t: sorted(x.id for x in ast.walk(t) if isinstance(x, ast.Name))  # noqa: E731
+                w["improper"] = ids(out) != ids(ast.parse(w["stmt_src"]))
+            except SyntaxError:
+                w["improper"] = False
         else:
             w["json_id"] = out.get("$id")
     return world
@@ -739,7 +749,7 @@ def syntax_cause(case, res):
 
 def oracle(case, res):
     """The property itself on the real run: list of (signature, description)."""
-    base = {"emit": case["emit"], "parse": case["parse"], "input": case["kind"], "infer": case["infer"]}
+    base = {"emit": case["emit"], "family": "sqlalchemy" if case["emit"] in SQL else case["emit"], "parse": case["parse"], "input": case["kind"], "infer": case["infer"]}
     fails = []
 
     def fail(kind, what, **kw):
@@ -756,10 +766,18 @@ def oracle(case, res):
         if res["out"] != SENTINEL:
             fail("guard", "existing output file was modified")
         return fails
+    if not oracle_entries(case):
+        return fails  # an empty input mapping is outside the quantifier (1..5 entries)
     if res["rc"] != 0:
         cause = syntax_cause(case, res) if res["exc"] == "SyntaxError" else ""
-        msg = "" if res["exc"] == "NotImplementedError" else res["msg"]
-        fail("crash", "gen exited %s: %s: %s" % (res["rc"], res["exc"], res["msg"]), exc=res["exc"], msg=msg, cause=cause)
+        stage = "gen"
+        for w in res.get("world", []):
+            if w.get("parse_error") == res["exc"]:
+                stage = "entry-parser"
+            elif w.get("emit_error") == res["exc"]:
+                stage = "entry-emitter"
+        msg = "" if res["exc"] == "NotImplementedError" or (stage != "gen" and res["exc"] == "KeyError") else res["msg"]
+        fail("crash", "gen exited %s: %s: %s" % (res["rc"], res["exc"], res["msg"]), exc=res["exc"], msg=msg, cause=cause, stage=stage)
         if res["out"] is not None:
             fail("partial-write", "gen failed but left an output file")
         return fails
@@ -780,13 +798,14 @@ def oracle(case, res):
             fail("symbol-count", "%d schemas for %d entries" % (len(sch), len(entries)))
             return fails
         for s, w, (n, k, node) in zip(sch, want, entries):
-            if w.isidentifier() and s.get("$id") != w:
-                fail("symbol-not-named-by-template", "$id %r, template gives %r" % (s.get("$id"), w))
+            if w.isidentifier() and not keyword.iskeyword(w) and s.get("$id") != w:
+                fail("symbol-not-named-by-template", "$id %r, template gives %r" % (s.get("$id"), w), cause="non-ascii-identifier" if not ASCII_ID.match(w) else "other")
             try:
                 src_if = interface_of(k, json.loads(case["input_text"]) if k == "json" else node)
                 out_if = interface_of("json_schema", s)
                 if src_if != out_if:
-                    fail("interface", "schema %r has parameters %s, source entry %s" % (s.get("$id"), out_if, src_if), via="%s->json_schema" % k)
+                    fail("interface", "schema %r has parameters %s, source entry %s" % (s.get("$id"), out_if, src_if), via="%s->json_schema" % k,
+                         lost=",".join(x for x in src_if if x not in out_if), gained=",".join(x for x in out_if if x not in src_if))
             except Exception as e:  # noqa
                 fail("parse-back", "schema %r cannot be read back: %s" % (s.get("$id"), exc(e)), exc=exc(e))
         return fails
@@ -822,11 +841,11 @@ def oracle(case, res):
     if len(set(defined)) != len(defined):
         fail("duplicate-symbol", "generated symbols %s" % defined)
     if defined != all_names:
-        cause = "sqlalchemy-name-from-ir" if case["emit"] in SQL else ("template-not-identifier" if any(not w.isidentifier() for w in want) else "other")
+        cause = "sqlalchemy-name-from-ir" if case["emit"] in SQL else ("template-not-ascii-identifier" if any(not ASCII_ID.match(w) for w in want) else "other")
         fail("all-ne-defined", "__all__ = %s but the module defines %s" % (all_names, defined), cause=cause)
     for d_, w in zip(defined, want):
         if w.isidentifier() and not keyword.iskeyword(w) and d_ != w and case["emit"] not in SQL:
-            fail("symbol-not-named-by-template", "symbol %r, template gives %r" % (d_, w))
+            fail("symbol-not-named-by-template", "symbol %r, template gives %r" % (d_, w), cause="non-ascii-identifier" if not ASCII_ID.match(w) else "other")
     # each symbol, parsed back, has the interface of its source entry
     for node, (n, k, src_node) in zip(gen_syms, entries):
         try:
@@ -842,7 +861,8 @@ def oracle(case, res):
         if case["emit"] in SQL and "id" in out_if and "id" not in src_if:
             out_if = [x for x in out_if if x != "id"]  # ensure_has_primary_key: the stated normalisation of C05
         if src_if != out_if:
-            fail("interface", "symbol %r has parameters %s, source entry %r has %s" % (sym_name(node), out_if, n, src_if), via="%s->%s" % (k, case["emit"]))
+            fail("interface", "symbol %r has parameters %s, source entry %r has %s" % (sym_name(node), out_if, n, src_if), via="%s->%s" % (k, case["emit"]),
+                 lost=",".join(x for x in src_if if x not in out_if), gained=",".join(x for x in out_if if x not in src_if))
     # every typing / SQLAlchemy name used is imported when inference is on
     if case["infer"]:
         from cdd.shared.ast_utils import DEFAULT_MODULES_TO_ALL
@@ -857,7 +877,8 @@ def oracle(case, res):
             used.update(x.id for x in ast.walk(g) if isinstance(x, ast.Name))
         missing = sorted(u for u in used if any(u in a for a in tabs) and u not in imported)
         if missing:
-            fail("import-missing", "names %s are used but not imported" % missing)
+            fail("import-missing", "names %s are used but not imported" % missing,
+                 cause="expression-text-in-Name-node" if any(w.get("improper") for w in res.get("world", [])) else "other")
     return fails
 
 
@@ -876,7 +897,7 @@ def cli_matrix(chk: core.Check):
         shutil.rmtree(tmp, ignore_errors=True)
     reqs = [gen_request(c, x) for c, x in zip(cases, results) if not x.get("timeout")]
     model = iter(core.model_batch(reqs))
-    n_dis = n_out = n_contract = 0
+    n_dis = n_out = n_contract = n_improper = 0
     dist = {"emit": {}, "parse": {}, "input": {}, "outcome": {}, "entries": {}, "flags": {}}
 
     def bump(k, v):
@@ -896,7 +917,10 @@ def cli_matrix(chk: core.Check):
         bump("flags", "infer=%s prepend=%s imports_file=%s exists=%s" % (c["infer"], c["prepend"] is not None, c["imports_file"] is not None, c["exists"]))
         rv, mv = real_view(c, x), model_view(c, mo)
         outside = "error" in mo.get("run", {}) and str(mo["run"]["error"]).startswith("outside:") and not c["exists"]
-        if outside:
+        improper = c["infer"] and any(w.get("improper") for w in x["world"])
+        if improper:
+            n_improper += 1
+        if outside or improper:
             n_out += 1
         elif rv != mv:
             n_dis += 1
@@ -922,6 +946,7 @@ def cli_matrix(chk: core.Check):
                "correspondence", n_dis == 0, "%d disagreements" % n_dis)
     chk.oblige("correspondence: emitted symbol names = GenModule.symbolName", "correspondence", n_contract == 0, "%d disagreements" % n_contract)
     chk.coverage["cli_distribution"] = dist
+    chk.coverage["cli_runs_with_expression_text_in_a_Name_node_under_inference"] = n_improper
 
 
 def _parses(src):
